@@ -184,6 +184,8 @@ pub fn run(tier: &str, report: &mut Report) {
 /// that lies between two adjacent hook points is invisible to the controlled scheduler
 /// but can be hit here.
 pub fn stress_supplement(report: &mut Report, seconds: f64) {
+    // free-running threads need real parallelism: no CPU pinning here
+    crate::util::set_home_cpu(None);
     let dl = crate::util::Deadline::new(seconds);
     let mut rounds = 0u64;
     let mut ops = 0u64;
